@@ -28,28 +28,37 @@ static int32 CSend(const uint8 * buf, uint32 n, void * arg) {CEnd * e = (CEnd *)
 static int32 CRecv(uint8 * buf, uint32 n, void * arg) {CEnd * e = (CEnd *) arg; const uint32 c = e->s->Serve(n, e->p->got, e->p->avail()); (void) e->p->pop(buf, c); return (int32) c;}
 
 static const uint32 kInBuf = 256 * 1024, kOutBuf = 1024 * 1024;
+static const uint32 kSmallBuf = 4096;   // configurations micro_rx_4k / micro_tx_4k: the caller-supplied buffers ARE the thresholds of MicroMessageGateway.c
 
 class MicroLink : public Link
 {
 public:
-   bool cSends; UMessageGateway cgw; uint8 * ib; uint8 * ob; MessageIOGateway cpp; QueueGatewayMessageReceiver q; CEnd end; bool cErr; uint64_t queuedBytes;
-   MicroLink(bool cs) : cSends(cs), ib(new uint8[kInBuf]), ob(new uint8[kOutBuf]), cErr(false), queuedBytes(0) {
-      UGGatewayInitialize(&cgw, ib, kInBuf, ob, kOutBuf);
+   bool cSends; UMessageGateway cgw; uint8 * ib; uint8 * ob; MessageIOGateway cpp; QueueGatewayMessageReceiver q; CEnd end; bool cErr; uint64_t queuedBytes; uint32 inSize, outSize;
+   MicroLink(bool cs, bool smallBufs) : cSends(cs), ib(new uint8[kInBuf]), ob(new uint8[kOutBuf]), cErr(false), queuedBytes(0), inSize(smallBufs ? kSmallBuf : kInBuf), outSize(smallBufs ? kSmallBuf : kOutBuf) {
+      UGGatewayInitialize(&cgw, ib, inSize, ob, outSize);
+      retryQueue = (smallBufs && cSends); big = !smallBufs;
       simple = cSends;   // the native writer below knows int32 arrays, strings and raw data
       if (cSends) {cpp.SetDataIO(DataIORef(new ScriptIO(&fwd, &rs, NULL, NULL))); end.p = &fwd; end.s = &ws;}
              else {cpp.SetDataIO(DataIORef(new ScriptIO(NULL, NULL, &fwd, &ws))); end.p = &fwd; end.s = &rs;}
    }
    virtual ~MicroLink() {delete [] ib; delete [] ob;}
-   virtual bool CanQueueNow() {return (!cSends)||((queuedBytes - fwd.put) < (kOutBuf / 2));}   // the output buffer is all the queue there is: leave room for the largest Message
+   virtual bool CanQueueNow() {return (!cSends)||(retryQueue)||((queuedBytes - fwd.put) < (kOutBuf / 2));}   // the output buffer is all the queue there is: leave room for the largest Message
    virtual bool Queue(const MsgSpec & s0) {
       if (!cSends) return cpp.AddOutgoingMessage(Build(s0)).IsOK();
       MsgSpec s = s0; Finalize(s);
+      if (retryQueue) {
+         // will it fit?  (the space UGGetOutgoingMessage will offer: what is free behind the pending bytes, after its move-to-the-front below a quarter of the buffer)
+         uint32 avail = (uint32)((cgw._outputBuffer + cgw._outputBufferSize) - (cgw._firstValidOutputByte + cgw._numValidOutputBytes));
+         if (avail < cgw._outputBufferSize / 4) avail = cgw._outputBufferSize - cgw._numValidOutputBytes;
+         if (8 + Flat(*Build(s)()).size() > avail) return false;
+      }
       UMessage um = UGGetOutgoingMessage(&cgw, s.what);
       if (!UMIsMessageValid(&um)) return false;
       bool ok = true;
       for (size_t i=0; (i<s.fields.size())&&(ok); i++) {
          const Field & f = s.fields[i];
          switch(f.type) {
+            case 'y': {std::vector<int8> v; for (uint32_t k=0; k<f.n; k++) v.push_back((int8)(f.style + k)); ok = (UMAddInt8s(&um, f.name.c_str(), &v[0], (uint32) v.size()) == CB_NO_ERROR);} break;
             case 'i': {std::vector<int32> v; for (uint32_t k=0; k<f.n; k++) v.push_back((int32)(f.style * 1000 + k)); ok = (UMAddInt32s(&um, f.name.c_str(), &v[0], (uint32) v.size()) == CB_NO_ERROR);} break;
             case 's': {const Bytes t = Fill(3, f.n, f.style); ok = (UMAddString(&um, f.name.c_str(), t.c_str()) == CB_NO_ERROR);} break;
             case 'b': {const Bytes t = Fill(f.style, f.n, f.n + 1); ok = (UMAddData(&um, f.name.c_str(), B_RAW_TYPE, t.data(), (uint32) t.size()) == CB_NO_ERROR);} break;
@@ -79,19 +88,46 @@ public:
       return r;
    }
    virtual bool TxIdle() {return cSends ? (UGHasBytesToOutput(&cgw) == UFalse) : !cpp.HasBytesToOutput();}
+   virtual void SizeCases(std::vector<SizeCase> & out, bool big);
 };
 
 static Link * MakeLink(const std::string & cfg)
 {
-   if (cfg == "micro_tx") return new MicroLink(true);
-   if (cfg == "micro_rx") return new MicroLink(false);
-   return NULL;
+   Link * l = NULL;
+   if (cfg == "micro_tx") l = new MicroLink(true, false);
+   if (cfg == "micro_rx") l = new MicroLink(false, false);
+   if (cfg == "micro_tx_4k") l = new MicroLink(true, true);
+   if (cfg == "micro_rx_4k") l = new MicroLink(false, true);
+   if (l) l->name = cfg;
+   return l;
+}
+
+void MicroLink :: SizeCases(std::vector<SizeCase> & out, bool /*big*/)
+{
+   const MsgSpec small = MenuMessage(FAM_BIN, 0, 1, true, false);
+   if (name == "micro_rx_4k") {
+      // UGGatewayInitialize: "if a UMessage is received that is too large, the stream will be broken": bodies up to the input buffer size arrive, one byte more does not
+      for (uint32_t n = inSize - 6; n <= inSize; n++) out.push_back(Case1(Fmt("input buffer %u: Message of %u bytes", inSize, n), SizedBin(n, true), &small));
+      SizeCase r; r.what = Fmt("input buffer %u: Message of %u bytes, then one of %u bytes", inSize, inSize, inSize + 1); r.msgs.push_back(SizedBin(inSize, true)); r.msgs.push_back(SizedBin(inSize + 1, true)); r.rejectAt = 1; out.push_back(r);
+      return;
+   }
+   if (name == "micro_tx_4k") {
+      // the output buffer is all the queue there is: a Message that fills it exactly; trains of frames around a quarter of it (below a quarter of free space the
+      // pending bytes are moved to the front before the next Message is built)
+      out.push_back(Case1(Fmt("output buffer %u: Message of %u bytes (frame = the whole buffer)", outSize, outSize - 8), SizedBin(outSize - 8, true), &small));
+      for (uint32_t f = outSize / 4 - 8; f <= outSize / 4 + 8; f++) {SizeCase c; c.what = Fmt("output buffer %u: 12 frames of %u bytes", outSize, f); for (int k=0; k<12; k++) c.msgs.push_back(SizedBin(f - 8, (k & 1) != 0)); out.push_back(c);}
+      for (uint32_t f = outSize / 2 - 3; f <= outSize / 2 + 3; f++) {SizeCase c; c.what = Fmt("output buffer %u: 6 frames of %u bytes", outSize, f); for (int k=0; k<6; k++) c.msgs.push_back(SizedBin(f - 8, (k & 1) != 0)); out.push_back(c);}
+      return;
+   }
+   // the C++ side's scratch receive buffer (2048 - 8) and the small frames
+   for (uint32_t n = 2030; n <= 2060; n++) out.push_back(Case1(Fmt("scratch receive buffer of the C++ side: Message of %u bytes", n), SizedBin(n, true), &small));
+   for (uint32_t n = 12; n <= 44; n++) {if ((n > 12)&&(n < 27)) continue; const MsgSpec m = SizedBin(n, false); out.push_back(Case1(Fmt("small Message of %u bytes, twice", n), m, &m));}
 }
 
 int main(int argc, char ** argv)
 {
    CompleteSetupSystem css; SetConsoleLogLevel(MUSCLE_LOG_NONE);
-   if ((argc > 1)&&(!strcmp(argv[1], "configs"))) {printf("micro_tx\nmicro_rx\n"); return 0;}
+   if ((argc > 1)&&(!strcmp(argv[1], "configs"))) {printf("micro_tx\nmicro_rx\nmicro_tx_4k\nmicro_rx_4k\n"); return 0;}
    const int r = CommonMain(argc, argv, MakeLink);
    if (r >= 0) return r;
    fprintf(stderr, "usage: gwmicro replay|explore|menu|configs ...\n");
